@@ -326,3 +326,26 @@ package transport
 //@   trusted
 //@   modifies nothing
 //@   ensures len(s) == len(b) && sameSlice(s, b, 0, len(b))
+
+// Status (what the connection pool acts on): a connection is reported closed only when it has torn itself down
+// (the pool forgets closed connections without closing them), and available while wire IDs remain.
+//@ func (c *pipelineConn) Status() (s connpool.ConnStatus)
+//@   props C18 C05
+//@   requires c != nil
+//@   modifies nothing
+//@   ensures [C18:closed-only-when-torn-down] s.Closed == c.closed
+//@   ensures [C05:available-while-ids-remain] s.Available == (c.nextQid + c.reserved <= 65535)
+
+//@ func (c *pipelineConn) Reserve()
+//@   props C05
+//@   requires c != nil
+//@   modifies c.reserved
+//@   ensures [C05:reservation-bounded] c.reserved == (old(c.nextQid) + old(c.reserved) < 65535 ? old(c.reserved) + 1 : old(c.reserved)) && c.nextQid == old(c.nextQid)
+
+//@ func (c *pipelineConn) Close() (err error)
+//@   props C18
+//@   requires c != nil
+//@   ghost nC int = 0
+//@   oncall closeWithErr: nC = nC + 1
+//@   modifies c.closed
+//@   ensures [C18:close-tears-down] nC == 1 && err == nil
